@@ -287,19 +287,16 @@ def _model(ctx):
     if not r.ok:
         raise vlib.Infra("FontCycle.tla (source tables) violates %s on the model:\n%s" % (r.violated, r.error_text[:1500]))
     if full:
-        # A prediction about the design, not a verdict: is the FIRST cycle already a fixed point for every table set?
+        # Design history, not a verdict: the reader before proposed-fixes/C01-2 was applied ("asis") has table sets
+        # whose first cycle is not a fixed point; the current ("repaired") reader has none.
         r = ctx.tlc("FontCycle", cfg="FontCycleTabsFP.cfg", timeout=1500, count=False,
-                    label="FontCycle, source tables, first cycle a fixed point? (prediction)")
-        if r.violated:
-            ctx.notes.append("model prediction: for some accepted table sets the first write/read cycle is NOT a fixed point "
-                             "(TLC counterexample to %s in FontCycleTabsFP.cfg); the table-set replay decides on the real code"
-                             % r.violated)
-        else:
-            ctx.notes.append("model prediction: every table set is a fixed point after the first read")
+                    label="FontCycle, source tables, reader before the C01-2 repair: first cycle a fixed point?")
+        ctx.notes.append("model of the reader BEFORE the C01-2 repair: first cycle a fixed point for every table set: %s"
+                         % ("no, TLC counterexample to %s (as found on the real code then)" % r.violated if r.violated else "yes"))
         r = ctx.tlc("FontCycle", cfg="FontCycleTabsFPRepaired.cfg", timeout=1500, count=False,
-                    label="FontCycle, source tables, reader with the repair of proposed-fixes/C01-2 (design check)")
-        ctx.notes.append("model with the reader repaired as in proposed-fixes/C01-2.diff: first cycle is a fixed point for every "
-                         "table set: %s" % ("yes (TLC, exhaustive)" if r.ok else "NO, counterexample to %s" % r.violated))
+                    label="FontCycle, source tables, current reader: first cycle a fixed point? (prediction)")
+        ctx.notes.append("model of the current reader: first cycle is a fixed point for every table set: %s"
+                         % ("yes (TLC, exhaustive)" if r.ok else "NO, counterexample to %s; the table-set replay decides" % r.violated))
     ctx.cov["exhaustive"] = True
     ctx.cov["bounds"] = {
         "built": "6 style flags x weight x width x angle {0, exact, rounds-to-0, inexact} x family {plain, Bold, Italic, Semi Bold} "
